@@ -258,6 +258,15 @@ def guards_percent(t, a, m):
     return g
 
 
+def combine_justified(m):
+    """Does the template (as CPython parses it) really mix keyed specifiers with specifiers that
+    take a positional argument ('*' included)?  "%%" takes no argument."""
+    if m is None or m.get("pyscan") in (None, "VE", "none"):
+        return False
+    sp = [x.split(",") for x in m["pyscan"].split(";")]
+    return any(x[1] != "-" for x in sp) and any((x[1] == "-" and x[0] != "37") or x[3] == "*" or x[4] == "*" for x in sp)
+
+
 # clause -> direction it can excuse: "missed" (CPython raises, nothing reported) / "extra" (reported, CPython fine)
 CLAUSE_DIRECTIONS = {
     "C17-key-parentheses": {"missed", "extra"},
@@ -735,7 +744,11 @@ def run(tier: str, replay: str | None = None):
             cases.append(("format", t, args, kwargs))
 
     # 3. model
-    model_ok = proof is not None and not any("build failed" in b for b in proof.broken)
+    # the model files are built on their own, so that a broken proof (e.g. a pinned constant
+    # that changed) does not take the correspondence and the known-finding attribution down with it
+    model_ok = gen is not None
+    if model_ok and (proof is None or not proof.ok):
+        model_ok, _log = lib.coq_make(["theories/Format/Guards.vo", "theories/Format/StrFormat.vo"])
     model_lines = None
     if model_ok:
         try:
@@ -784,7 +797,11 @@ def run(tier: str, replay: str | None = None):
                 failing.append((i, "checker crashed: " + impl_line, py, set()))
                 continue
             kinds = set(lint) | set(acc)
-            documented = DOCUMENTED_LINT
+            documented = set(DOCUMENTED_LINT)
+            if "LCombine" in kinds and not combine_justified(m):
+                # the documented rule is about mixing specifiers that need a mapping with ones that
+                # take a positional argument; a report without such a mix is not covered by it
+                documented.discard("LCombine")
             nontrivial = "%" in (t.decode("latin-1") if is_bytes else t)
             g = guards_percent(t, a, m) if m is not None else set()
             dirs = CLAUSE_DIRECTIONS
